@@ -17,8 +17,13 @@ ROLES = {
 }
 
 
-def unit(kind, n_dim=1, cov=0):
-    return dict(kind=kind, n_dim=n_dim, cov=cov)
+def unit(kind, n_dim=1, cov=0, sel=None):
+    u = dict(kind=kind, n_dim=n_dim, cov=cov)
+    if sel is not None:
+        # covariate model acting on a selection of [parameter, dimension]
+        # pairs only (applied after the dimension names were set)
+        u['sel'] = [list(x) for x in sel]
+    return u
 
 
 def total_dim(units):
@@ -70,9 +75,27 @@ def build(B, cfg):
         # user-chosen individual labels, in data order (not sorted)
         for ll_, lab in zip(lls, cfg['id_labels']):
             ll_.set_id(lab)
-    pop = make_population(units, n_ids, cfg.get('bare', False))
     ll_names = lls[0].get_parameter_names()
-    pop.set_dim_names(ll_names)
+    if any(u.get('sel') for u in units):
+        # sub-models are configured completely (dimension names, then the
+        # selection of covariate-shifted parameters) *before* they are
+        # composed: the composite caches their counts
+        models, dim = [], 0
+        for u in units:
+            m_ = ps.make(u['kind'], u['n_dim'], n_ids)
+            if u['cov']:
+                m_ = chi.CovariatePopulationModel(
+                    m_, chi.LinearCovariateModel(n_cov=u['cov']))
+            m_.set_dim_names(ll_names[dim:dim + u['n_dim']])
+            if u.get('sel'):
+                m_.set_population_parameters(u['sel'])
+            models.append(m_)
+            dim += u['n_dim']
+        pop = models[0] if cfg.get('bare') and len(models) == 1 else \
+            chi.ComposedPopulationModel(models)
+    else:
+        pop = make_population(units, n_ids, cfg.get('bare', False))
+        pop.set_dim_names(ll_names)
     fixed = {}
     if cfg.get('fix') is not None:
         pop = chi.ReducedPopulationModel(pop)
@@ -141,13 +164,18 @@ def spec(B, H, val, ids_unique, assume=True):
             else:
                 r0, r1 = ROLES[kind]
                 m0, s0 = top('%s %s' % (r0, dn)), top('%s %s' % (r1, dn))
+                sel = u.get('sel')
+                on0 = sel is None or [0, d] in sel
+                on1 = sel is None or [1, d] in sel
                 for i in range(n_ids):
                     mi, si = m0, s0
                     for c in range(u['cov']):
                         cn = 'Cov. %d' % (c + 1)
                         x = covs[i][cov0 + c]
-                        mi = mi + top('%s %s %s' % (r0, dn, cn)) * x
-                        si = si + top('%s %s %s' % (r1, dn, cn)) * x
+                        if on0:
+                            mi = mi + top('%s %s %s' % (r0, dn, cn)) * x
+                        if on1:
+                            si = si + top('%s %s %s' % (r1, dn, cn)) * x
                     x = bottom(i, dn)
                     if assume:
                         B.assume(si > 0)
